@@ -276,7 +276,7 @@ def report(res, ev, broken, aspects, known_match=None):
     """Turn the evaluation into VIOLATION / KNOWN-FINDING lines for this property.
     aspects: list of keys of `ev` that are violations of THIS property when non-empty (concrete replays);
     'struct' and 'sem' are model-vs-implementation disagreements (ties), never violations by themselves."""
-    known = [k for k in C.load_known().get("findings", []) if k.get("property") == res.pid]
+    known = [k for k in C.load_known().get("findings", []) if k.get("property") == res.pid or res.pid in k.get("also_seen_by", [])]
     if known_match is None:
         def known_match(k, a, item):
             r = item if isinstance(item, dict) else item[0]
